@@ -295,3 +295,15 @@ Proof.
     pose proof (Nat.mod_upper_bound (W + 63) 64 ltac:(lia)). lia.
   - apply Nat.mod_mul. lia.
 Qed.
+
+(* known finding F90: across an export/resume a number accepted before is accepted again *)
+Theorem resume_forgets_window_refuted :
+  exists (W : nat) (xs ys : list N) (x : N),
+    In x (fst (run_resumed 281474976710655 W xs ys)) /\ In x (snd (run_resumed 281474976710655 W xs ys)).
+Proof. exists 64%nat, [5], [5], 5. vm_compute. split; left; reflexivity. Qed.
+
+(* ... while each of the two connections on its own still accepts no number twice *)
+Theorem resumed_each_nodup W maxseq xs ys : 0 < maxseq -> N.of_nat W <= maxseq ->
+  NoDup (fst (run_resumed maxseq W xs ys)) /\ NoDup (snd (run_resumed maxseq W xs ys)).
+Proof. intros H1 H2. unfold run_resumed. cbn [fst snd]. split; apply run_nodup; assumption. Qed.
+
